@@ -50,6 +50,18 @@ def ext_dict(ext_bytes):
 
 
 def sweep(st, model, caps, oids=None, tag='', full=True):
+    """Compare storage `st` with `model`.  Revisions a pack kept only to
+    serve back pointers ('shadow' records) may or may not be visible to
+    queries: a mismatch counts only if it is one under both views."""
+    bad = _sweep(st, model, caps, oids, tag, full)
+    if bad and model.has_shadow():
+        bad2 = _sweep(st, model.shadow_view(), caps, oids, tag, full)
+        keys = {b[1].split(': got ')[0] for b in bad2}
+        bad = [b for b in bad if b[1].split(': got ')[0] in keys]
+    return bad
+
+
+def _sweep(st, model, caps, oids=None, tag='', full=True):
     """Compare storage `st` with `model`.  caps: dict of capabilities
     (undo, record_iternext, last_inv, history_filter, loadserial).
     Returns a list of mismatch descriptions (empty = equal)."""
@@ -114,7 +126,8 @@ def sweep(st, model, caps, oids=None, tag='', full=True):
 
     # lastTransaction
     got = q(st.lastTransaction)
-    if got != ('ok', model.last_tid()):
+    if got != ('ok', model.last_tid()) and not (
+            model.alt_last is not None and got == ('ok', model.alt_last)):
         miss('lastTransaction()', got, ('ok', model.last_tid()))
 
     if not full:
@@ -211,9 +224,11 @@ def sweep(st, model, caps, oids=None, tag='', full=True):
                     # hint: must name a revision of that oid whose resolved
                     # bytes equal the record's
                     ok = False
-                    for rtid, rr in model.revisions(wr.oid):
-                        if rtid == gr[3] and rr.data == wr.data:
-                            ok = True
+                    for tt in model.txns:
+                        for rr in tt.recs:
+                            if tt.tid == gr[3] and rr.oid == wr.oid \
+                                    and rr.data == wr.data:
+                                ok = True
                     if not ok and caps.get('iter_hint', True):
                         miss('iterator txn %r data_txn hint' % t.tid, gr[3],
                              'a revision of %r with equal bytes' % wr.oid)
